@@ -464,6 +464,56 @@ func runC14(c *Ctx, r *Report, tier string) {
 			}, nil)
 			_, b := c.Requires(ip, isInstr(in), litHas(false, "nonempty(call:(*IniParser).matchingGroups("), nil)
 			r.Check(a && b, "UNKNOWN", ipn, "ErrUnknownGroup REQ(no matching group ∧ ¬IgnoreUnknown)", c.ipos(in), "both edges necessary", fmt.Sprintf("no-group=%v ¬IgnoreUnknown=%v", b, a))
+			// … and under nothing else: an unknown section is reported whether or not it has entries
+			var extra []string
+			// (only the branches taken in this iteration count: those from which the site is reached without going
+			// round the section loop again)
+			var hdr *ssa.BasicBlock
+			for x, k := in.Block(), 0; hdr == nil && x != nil && k < 4; k++ {
+				// (a block that returns lies outside the natural loop: look at what leads to it)
+				if l := innermost(c.loopsDeep(ip), x); l != nil {
+					hdr = l.Header
+				}
+				if len(x.Preds) == 0 {
+					break
+				}
+				x = x.Preds[0]
+			}
+			sameIter := func(from *ssa.BasicBlock) bool {
+				seen := map[*ssa.BasicBlock]bool{}
+				var walk func(x *ssa.BasicBlock) bool
+				walk = func(x *ssa.BasicBlock) bool {
+					if x == in.Block() {
+						return true
+					}
+					if seen[x] || x == hdr {
+						return false
+					}
+					seen[x] = true
+					for _, sx := range x.Succs {
+						if walk(sx) {
+							return true
+						}
+					}
+					return false
+				}
+				return walk(from)
+			}
+			for _, d := range c.controlDeps(ip, in.Block()) {
+				if d.B != hdr && !sameIter(d.B.Succs[d.Succ]) {
+					continue
+				}
+				l, ok := c.edgeLit(d.B, d.Succ)
+				if !ok {
+					continue
+				}
+				t := l.Term
+				if strings.HasPrefix(t, ignoreLit) || strings.Contains(t, "call:(*IniParser).matchingGroups(") || strings.HasPrefix(t, "lt(") || strings.HasPrefix(t, "phi{") {
+					continue
+				}
+				extra = append(extra, trunc(l.String(), 70))
+			}
+			r.Check(len(extra) == 0, "UNKNOWN", ipn, "an unknown section is reported under no further condition", c.ipos(in), "guards: no matching group, ¬IgnoreUnknown, the section loop", "also conditional on "+strings.Join(extra, "; ")+": an unknown section for which that fails is accepted silently")
 		}
 	}
 	// IgnoreUnknown tests: the ignoring edge must stay inside the innermost loop
